@@ -2,6 +2,7 @@ package harness
 
 import (
 	"fmt"
+	"io"
 	"os"
 	"strings"
 
@@ -32,6 +33,23 @@ func (c DCfg) completed() DCfg {
 type WEvent struct {
 	Accept int  `json:"accept"`
 	Err    bool `json:"err,omitempty"`
+	// Kind selects the error value of a fault: "" the harness's own error,
+	// "F" lz.ErrFullBuffer (a bounded queue that reuses the library's
+	// sentinel), "S" io.ErrShortWrite, "C" io.ErrClosedPipe. Whatever it is,
+	// it is the writer's error and has to come back as it is.
+	Kind string `json:"kind,omitempty"`
+}
+
+func writerFaultErr(kind string) error {
+	switch kind {
+	case "F":
+		return lz.ErrFullBuffer
+	case "S":
+		return io.ErrShortWrite
+	case "C":
+		return io.ErrClosedPipe
+	}
+	return errScript
 }
 
 // scriptWriter records everything it accepted and detects spinning callers.
@@ -45,6 +63,7 @@ type scriptWriter struct {
 	faults     int
 	shortFault int // faults that accepted 0 < j < len
 	lastOffer  []byte
+	lastFault  error  // the error of the most recent fault
 	lens       *[]int // lengths offered by all writer calls of the case
 }
 
@@ -78,12 +97,13 @@ func (w *scriptWriter) Write(p []byte) (int, error) {
 		w.events = w.events[1:]
 		if ev.Accept >= 0 && ev.Accept < n {
 			n = ev.Accept
-			err = errScript
+			err = writerFaultErr(ev.Kind)
 		}
 		if ev.Err {
-			err = errScript
+			err = writerFaultErr(ev.Kind)
 		}
 		if err != nil {
+			w.lastFault = err
 			w.faults++
 			if n > 0 && n < len(p) {
 				w.shortFault++
@@ -176,6 +196,12 @@ func (x *decExec) first(prop string) (string, bool) {
 		}
 	}
 	return "", false
+}
+
+// wfault tells whether err is the error the writer returned during the current
+// call (whatever its value: the writer may reuse a sentinel of the library).
+func (x *decExec) wfault(err error) bool {
+	return err != nil && x.wr != nil && x.wr.faults > x.faultsSeen && err == x.wr.lastFault
 }
 
 func (x *decExec) Case() DecCase {
@@ -418,7 +444,7 @@ func (x *decExec) afterCall(what string) {
 	}
 	// C18: a fault of the writer inside this call must come back as the
 	// writer's own error.
-	if x.haveErr && x.wr.faults > x.faultsSeen && x.lastErr != errScript {
+	if x.haveErr && x.wr.faults > x.faultsSeen && x.lastErr != x.wr.lastFault {
 		x.report("C18", "%s: the writer failed during the call (%d faults) but the call returned %v instead of the writer's error",
 			what, x.wr.faults-x.faultsSeen, x.lastErr)
 	}
@@ -451,12 +477,12 @@ func (x *decExec) doWriteByte(op DOp) {
 		return
 	}
 	x.lastErr, x.haveErr = err, true
-	switch err {
-	case nil:
+	switch {
+	case err == nil:
 		x.all = append(x.all, op.C)
-	case errScript:
+	case x.wfault(err):
 		x.retriesPending = append(x.retriesPending, op)
-	case errSpin:
+	case err == errSpin:
 	default:
 		x.reportAll([]string{"C07", "C04"}, "Decoder.WriteByte returned %v", err)
 	}
@@ -502,17 +528,17 @@ func (x *decExec) doWrite(op DOp) {
 	}
 	scribble(p) // the caller reuses its slice
 	x.all = append(x.all, op.Data[:n]...)
-	switch err {
-	case nil:
+	switch {
+	case err == nil:
 		if n != len(p) {
 			x.report("C17", "Decoder.Write(%d bytes) = (%d, nil)", len(p), n)
 			x.report("C04", "Decoder.Write(%d bytes) = (%d, nil)", len(p), n)
 		}
-	case errScript:
+	case x.wfault(err):
 		if n < len(p) {
 			x.retriesPending = append(x.retriesPending, DOp{Op: "write", Data: op.Data[n:]})
 		}
-	case errSpin:
+	case err == errSpin:
 	default:
 		// A plain byte slice is always valid input.
 		x.reportAll([]string{"C07", "C04"}, "Decoder.Write(%d bytes) returned %v", len(p), err)
@@ -672,7 +698,7 @@ func (x *decExec) doWriteBlock(op DOp) {
 			return
 		}
 		x.all = append(x.all, op.Lits[lp:]...)
-	case stopAtBad && err != errScript && err != errSpin:
+	case stopAtBad && !x.wfault(err) && err != errSpin:
 		// rejected: k is its index, l the literals consumed before it
 		x.rejected++
 		if l != lp {
@@ -730,7 +756,7 @@ func (x *decExec) classifyStop(what string, op DOp, st bufState, k, l int, err e
 		return
 	}
 	switch {
-	case err == errScript:
+	case x.wfault(err):
 		x.faultInBlock++
 		if x.wr.shortFault > x.shortFaultSeen {
 			x.shortFaultInBlock++
@@ -805,7 +831,7 @@ func (x *decExec) doWriteTo(op DOp) {
 	if n != int64(len(w.got)) {
 		x.report("C17", "WriteTo returned n=%d, the writer accepted %d", n, len(w.got))
 	}
-	if (w.faults > 0) != (err != nil) || (err != nil && err != errScript) {
+	if (w.faults > 0) != (err != nil) || (err != nil && err != w.lastFault) {
 		x.report("C18", "WriteTo returned %v, the writer returned fault=%v", err, w.faults > 0)
 	}
 	x.cursor += len(w.got)
@@ -822,8 +848,8 @@ func (x *decExec) doFlush() {
 		return
 	}
 	x.lastErr, x.haveErr = err, true
-	switch err {
-	case nil:
+	switch {
+	case err == nil:
 		if len(x.wr.got) != len(x.all) {
 			// x.all follows the counts the calls reported: their sum is not
 			// the number of bytes that went to the output stream
@@ -834,9 +860,9 @@ func (x *decExec) doFlush() {
 			x.report("C18", "after a successful Flush the writer holds %d bytes, the reference expansion has %d", len(x.wr.got), len(x.all))
 			x.dead = true
 		}
-	case errScript:
+	case x.wfault(err):
 		x.retriesPending = append(x.retriesPending, DOp{Op: "flush"})
-	case errSpin:
+	case err == errSpin:
 	default:
 		x.report("C04", "Flush returned %v", err)
 		x.report("C18", "Flush returned %v (not the writer's error)", err)
